@@ -130,3 +130,5 @@ func readNdjson(path string, each func(line []byte)) {
 }
 
 var _ = fmt.Sprint
+
+func newBuf(f *os.File) *bufio.Writer { return bufio.NewWriterSize(f, 1<<16) }
